@@ -122,7 +122,7 @@ def latex_name(display_latex: str) -> str:
 
 def float_fraction(f) -> Fraction:
     """A Float leaf denotes the decimal it carries at its declared precision: the exact binary value rounded
-    (half-even, exact rational arithmetic) to `dps` significant decimal digits (15 by default)."""
+    (ties away from zero, exact rational arithmetic) to `dps` significant decimal digits (15 by default)."""
     if abs(f._mpf_[2] + f._mpf_[3]) > 4000:  # pylint: disable=protected-access
         raise Unreadable("float with an astronomically large exponent")
     r = sympy.Rational(f)
@@ -137,7 +137,10 @@ def float_fraction(f) -> Fraction:
     while Fraction(10) ** (e10 + 1) <= a:
         e10 += 1
     scale = Fraction(10) ** (e10 - dps + 1)
-    m = round(a / scale)            # Python rounds Fractions half-even
+    q = a / scale
+    m = q.numerator // q.denominator
+    if 2 * (q - m) >= 1:            # ties away from zero (a tie needs an exactly representable 16-digit decimal)
+        m += 1
     out = m * scale
     return out if fr > 0 else -out
 
@@ -581,6 +584,87 @@ def evaluate(r, val: dict, exact: bool = False):  # pylint: disable=too-many-ret
     raise ValueError(k)
 
 
+def evaluate_mp(r, val: dict, dps: int = 60):
+    """The same evaluation with mpmath at `dps` digits (confirms a difference found with floats, so that rounding
+    and cancellation in double precision can never produce a reported violation)."""
+    import mpmath  # pylint: disable=import-outside-toplevel
+    with mpmath.workdps(dps):
+        mval = {}
+        for k, v in val.items():
+            if isinstance(v, complex):
+                mval[k] = mpmath.mpc(mpmath.mpf(repr(v.real)), mpmath.mpf(repr(v.imag)))
+            else:
+                mval[k] = mpmath.mpf(repr(v)) if isinstance(v, float) else mpmath.mpf(v)
+        fn = {"exp": mpmath.exp, "ln": mpmath.log, "sin": mpmath.sin, "cos": mpmath.cos, "tan": mpmath.tan,
+            "asin": mpmath.asin, "acos": mpmath.acos, "atan": mpmath.atan, "sinh": mpmath.sinh, "cosh": mpmath.cosh,
+            "tanh": mpmath.tanh, "Rabs": abs, "sqrt": mpmath.sqrt}
+
+        def cz(v):
+            v = mpmath.mpmathify(v)
+            return mpmath.mpf(v.real) if mpmath.im(v) == 0 else v
+
+        def ev(t):  # pylint: disable=too-many-return-statements,too-many-branches
+            k = t[0]
+            if k == "num":
+                return mpmath.mpf(t[1].numerator) / t[1].denominator
+            if k == "dec":
+                return mpmath.mpf(t[1]) * mpmath.mpf(10) ** t[2]
+            if k == "var":
+                return mval[t[1]]
+            if k == "pi":
+                return +mpmath.pi
+            if k == "add":
+                return mpmath.fsum([ev(a) for a in t[1]]) if t[1] else mpmath.mpf(0)
+            if k == "mul":
+                out = mpmath.mpf(1)
+                for a in t[1]:
+                    out = out * ev(a)
+                return out
+            if k == "neg":
+                return 0 - ev(t[1])
+            if k == "sub":
+                return ev(t[1]) - ev(t[2])
+            if k == "div":
+                return ev(t[1]) / ev(t[2])
+            if k == "inv":
+                return 1 / ev(t[1])
+            if k == "powi":
+                return ev(t[1]) ** t[2]
+            if k == "sqrt":
+                return mpmath.sqrt(cz(ev(t[1])))
+            if k == "rpow":
+                return mpmath.exp(ev(t[2]) * mpmath.log(cz(ev(t[1]))))
+            if k == "fn":
+                return fn[t[1]](cz(ev(t[2][0])))
+            if k == "phi":
+                h = sum((i + 1) * ord(ch) for i, ch in enumerate(t[1])) % 97
+                acc = mpmath.mpf("0.37") + mpmath.mpf(h) / 13
+                for i, a in enumerate(t[2]):
+                    x = ev(a)
+                    acc += (mpmath.mpf("0.61") + mpmath.mpf("0.23") * i + mpmath.mpf(h) / 101) * x + mpmath.mpf("0.05") * (i + 1) * x * x
+                return acc
+            raise ValueError(k)
+
+        return mpmath.mpmathify(ev(r))
+
+
+def confirmed_different(orig, parsed, val) -> bool:
+    """a float-level difference counts only if it persists at 60 digits"""
+    import mpmath  # pylint: disable=import-outside-toplevel
+    try:
+        with mpmath.workdps(60):
+            a = evaluate_mp(orig, val)
+            try:
+                b = evaluate_mp(parsed, val)
+            except (ZeroDivisionError, ValueError, KeyError, OverflowError):
+                return True
+            if not (mpmath.isfinite(a) and mpmath.isfinite(b)):
+                return False
+            return abs(a - b) > mpmath.mpf(10) ** (-30) * max(1, abs(a), abs(b))
+    except (ZeroDivisionError, ValueError, KeyError, OverflowError, TypeError):
+        return False
+
+
 def close(a, b, tol=1e-9) -> bool:
     if a != a or b != b:  # nan
         return False
@@ -630,8 +714,10 @@ def find_distinguishing(rng, orig, parsed, hyp_list, tries=60):
         except KeyError as e:
             return (val, a, f"unknown name {e}")
         except (ZeroDivisionError, OverflowError, ValueError) as e:
-            return (val, a, f"undefined: {type(e).__name__}")
-        if not close(a, b):
+            if confirmed_different(orig, parsed, val):
+                return (val, a, f"undefined: {type(e).__name__}")
+            continue
+        if not close(a, b) and confirmed_different(orig, parsed, val):
             return (val, a, b)
     return None
 
